@@ -285,6 +285,30 @@ CHECKS = {
         "6/C10"),
 }
 
+
+# addenda after the seeded-change rounds (appended to the level text of each check)
+ADDENDA = {
+ "C01": " Focus pools cover schematic TYPE variables, incl. two schematic variables of one name at two schematic types.",
+ "C02": " The universe also varies the KIND of the args object on every primitive rule, citation counts, aliased item objects and equal twin items, and every check runs through non-global Theory objects (a side theory and a copy snapshot).",
+ "C04": " Also: all candidate steps of C18_Alethe through every veriT rule macro (every intended instance + stride-sampled near misses in quick, all in thorough), the C05 goal universe through the arithmetic macros, histories of `auto` invocations over the code's rule tables, histories of one theorem name whose statement changes, one premise at a time given a hypothesis of its own; clauses NoNewGaps and three clauses on the exported numbering.",
+ "C05": " Magnitudes beyond 2^31 are judged with limb big integers (spec/lib/BigInt.tla, itself model-checked); compound natural exponents with truncated subtraction are in the universe.",
+ "C06": " C06_Sem gives function equality its extensional meaning, exact sqrt on squares, a sign abstraction for exp/log and a per-goal real grid; histories in one process (fail-then-succeed, open/closed intervals), binder-name clashes, a route where Z3 gives up at once.",
+ "C07": " Also proof-step ARGUMENTS for every signature parse_args knows (C07_Args), all unicode/highlight/width settings, and print HISTORIES (C07_History; clause PrintStable); polymorphic leaves under operators and inside list/set literals.",
+ "C08": " Histories over several theory objects, declared variables in the constraint family, schematic leaves (also sharing names with ordinary variables) in every family.",
+ "C09": " Higher-order heads over mixtures of bound variables and (pre-)matched schematic variables, targets with maximally shared sub-term objects, ground self-matches (invariant SelfMatch).",
+ "C10": " Binder-name clashes under every combinator, one theory object extended item by item (normalisers before/after the binary-arithmetic theorems), application atoms and units in propositional orbits.",
+ "C11": " The S spec is a HISTORY machine of definitions (instances of overloaded constants must not overlap: invariant UniqueGround); non-uniform datatypes; statements of every type.",
+ "C12": " The PlusCal model includes the files themselves (create / remove / other imports / positional item edits) and six mechanism deviations; the driver performs the same operations on scratch copies of the library; clauses MissingFileIsError, position-aware ReturnsExpected; sibling-walk histories.",
+ "C13": " Spec->code replay of all short line-edit behaviours (C13_LineEdit), generated sessions (sibling binders, nested existentials, cut/merge, introduction on a known antecedent, typed redexes, closed arithmetic), walks of depth 4 on copies.",
+ "C14": " Clause StepChecks (the state left by a successful suggestion passes the full check); generated states and suggestion-driven walks with generated parameters; theory `function` always sampled.",
+ "C15": " Families X op X (repeated operands) in every context; one representative per variable renaming in thorough.",
+ "C16": " Ordered assertion histories (weak bound, pivot, tight bound on one linear form) besides multisets.",
+ "C17": " Path-shaped merge sets over 6-7 constants, queries on terms never added after every prefix, swapped arguments, merges with proof terms (clause HolGapFree).",
+ "C18": " Nested anchors, compound literals as pivots and list items, binder names in cong candidates; `let` and `onepoint` are judged (discharged variables read universally).",
+ "C19": " Histories of rule applications sharing one parent-less Context (C19_Ctx), identities with several side conditions under every subset of established conditions, limits of rational functions at infinity as extended rationals.",
+ "C20": " Programs that branch on a temporary the postcondition is silent about; re-annotation histories on one command object (ReAnnotate / ReInvariant).",
+}
+
 NOT_YET = {}
 
 
@@ -311,7 +335,7 @@ def main():
             "evidence_file": "/verif/evidence/%s.json" % pid,
             "replay_cmd_template": "./check %s --replay {path}" % pid,
             "engine": "tlc",
-            "level_claimed": {"category": cat, "text": text, "design_ref": "DESIGN.md section " + ref},
+            "level_claimed": {"category": cat, "text": text + ADDENDA.get(pid, ""), "design_ref": "DESIGN.md section " + ref},
             "level_note": note,
             "technique": tech,
         })
